@@ -840,3 +840,45 @@ func VP_C04_long_whitespace() {
 	vp.Assert(string(w.b) == string(ref), "in-range integer literal converts exactly")
 	vp.Cover("end")
 }
+
+// string literals around and far beyond the 32767-byte limit of a TAG_String
+// (32767, 32768, 65535, 65536, 70000, 98303, 131072 bytes, quoted, as a value on
+// its own, in a list and in a compound): up to the limit the text converts to
+// the reference bytes, beyond it the conversion fails - a document with a
+// wrapped length prefix is never produced.
+func VP_C04_long_string_literals() {
+	n := []int{32767, 32768, 65535, 65536, 70000, 98303, 131072}[vp.Choice(7)]
+	vp.SizeBound(2*n + 64)
+	vp.Unwind(n + 64)
+	vp.MaxSteps(900000000)
+	body := make([]byte, n)
+	for i := range body {
+		body[i] = 'a' + byte(i%26)
+	}
+	body[0], body[n-1] = []byte{'Q', '7'}[vp.Choice(2)], 'Z'
+	var text, ref []byte
+	var tag byte
+	str := append(vpBE(uint64(n), 2), body...)
+	switch vp.Choice(3) {
+	case 0:
+		text = append(append([]byte{'"'}, body...), '"')
+		tag, ref = TagString, str
+	case 1:
+		text = append(append([]byte{'[', '"'}, body...), '"', ']')
+		tag, ref = TagList, append([]byte{TagString, 0, 0, 0, 1}, str...)
+	default:
+		text = append(append([]byte{'{', 'k', ':', '"'}, body...), '"', '}')
+		tag, ref = TagCompound, append(append(vpTagHdr(TagString, "k"), str...), 0)
+	}
+	m := StringifiedMessage(text)
+	var w vpBuf
+	err := m.MarshalNBT(&w)
+	if n > 32767 {
+		vp.Assert(err != nil, "a string literal longer than 32767 bytes is refused")
+	} else {
+		vp.Assert(err == nil, "a valid text converts whatever the amount of whitespace")
+		vp.Assert(m.TagType() == tag, "announced tag type agrees with the independent reading")
+		vp.Assert(string(w.b) == string(ref), "document agrees with the independent reading")
+	}
+	vp.Cover("end")
+}
